@@ -94,19 +94,7 @@ func observedAnchors(tree []sb.Node) []anchor {
 		if !ok {
 			continue
 		}
-		if n.Kind == "IfNode" {
-			// the IfNode a "for ... if" is compiled to is synthetic
-			par := -1
-			for j := i - 1; j >= 0; j-- {
-				if tree[j].Depth == n.Depth-1 {
-					par = j
-					break
-				}
-			}
-			if par >= 0 && tree[par].Kind == "ForNode" {
-				continue
-			}
-		}
+		_ = i
 		out = append(out, anchor{k, n.Line, n.Off, -1})
 	}
 	return out
@@ -285,7 +273,7 @@ func init() {
 		return nil
 	})
 
-	cfg := gen.Cfg{ExprDepth: 2, BodyLen: 3, Nest: 3, Calls: true, Comments: true, If: true, For: true, LoopMeta: true,
+	cfg := gen.Cfg{ExprDepth: 2, BodyLen: 3, Nest: 3, Calls: true, Comments: true, If: true, For: true, ForIf: true, LoopMeta: true,
 		Set: true, SetCap: true, FilterSec: true, Macros: true, Blocks: true, Do: true, HostileText: true, NoInterp: true}
 	genSpelt := func(t *rapid.T) (c14Case, string) {
 		var prog *m.Program
